@@ -7,7 +7,7 @@ from . import common
 
 ID = "C03"
 LEVEL = "exploration"
-BUDGET = {"quick": 1400, "thorough": 28000}
+BUDGET = {"quick": 1000, "thorough": 20000}
 WALL_CAP = {"quick": 600, "thorough": 5400}
 RULE = ("case = generated well-formed 2D/3D plotfile (scattered/non-monotone layouts, stale-level and long "
         "refinement-ratio header variants, special payloads only when the options do not read data); per world ALL 16 "
@@ -31,7 +31,9 @@ def run_case(ctx):
     if special:
         # NaN/inf payloads: only option sets that do not read the data
         world.fill_random(m, src.draw("special.seed", 0, 99999), special=True)
-    path, _ = common.materialise(ctx, m)
+    from amr_kitchen.taste import Taster as _T
+    path, hcwd, _abs, hmode = common.history_materialise(
+        ctx, m, lambda p: run_tool(ctx, lambda: bool(_T(p, nofail=True, verbose=0, binary_data=True, boxes_coordinates=True))))
     limits = [None] + list(range(m.nlev))
     for (bh, bs, bd, bc) in itertools.product((True, False), repeat=4):
         if bd and special:
@@ -44,7 +46,8 @@ def run_case(ctx):
                     kw["limit_level"] = limit
                 o = run_tool(ctx, lambda: bool(Taster(path, **kw)))
                 ctx.stats["taste_runs"] += 1
-                ctx.reset_pools()
+                if hmode == "none":
+                    ctx.reset_pools()
                 sig = {"property": ID, "binary_data": bd, "binary_headers": bh, "binary_shape": bs,
                        "boxes_coordinates": bc, "nofail": nofail}
                 if not o.ok:
